@@ -9,7 +9,12 @@ import os
 import re
 import vcommon as vc
 
-RULE = ("histories = one dataset per fresh file: rank 0..4 (+ spot ranks 8 and 32), extents 1..6, optional unlimited "
+RULE = ("histories of two kinds. (a) files with 2..5 datasets (mixed ranks 0..3 / types / flavours, some unlimited, at "
+        "least one never written, some partly written; datasets also created mid-history): writes and reads interleaved "
+        "across the datasets and across SDend/SDstart cycles; after every reopen and at the end EVERY dataset is read "
+        "in full and compared with its own array (never-written ones must read as fill; a write to one dataset must not "
+        "show in another); after the last reopen a never-written dataset is written and all are re-read. "
+        "(b) one dataset per fresh file: rank 0..4 (+ spot ranks 8 and 32), extents 1..6, optional unlimited "
         "first dimension, every 8/16/32-bit integer type, char, float32/64 in standard, little-endian and native "
         "flavour; then 3..12 operations drawn from one PRNG (VERIF_SEED): SDsetfillmode, SDsetfillvalue (before the "
         "first write), SDsetblocksize, SDwritedata / SDreaddata with stride NULL / all-ones / 1..3 and start/count "
@@ -190,6 +195,102 @@ class Gen:
         lines += ["G", fr, "C", "G", fr, "E"]
         return lines
 
+    def multi_history(self):
+        """One file with 2..5 datasets (mixed ranks/types, some unlimited, some never written, some partly written);
+        writes and reads interleaved across the datasets and across SDend/SDstart cycles.  After every reopen, and at
+        the end, EVERY dataset is read back in full and compared with its own array: a never-written dataset must
+        read as its fill value, and a write to one dataset must not show up in any other."""
+        r = self.r
+        ds = []          # dicts: dims, cdims, unlim, w, numrecs, nt
+        lines = []
+
+        def create(first):
+            rank = r.choice([0, 1, 1, 2, 2, 3])
+            base = r.choice(list(BASES))
+            nt = base | r.choice(FLAV)
+            unlim = rank > 0 and r.random() < 0.35
+            dims = [r.randrange(1, 6) for _ in range(rank)]
+            cd = list(dims)
+            if unlim:
+                cd[0] = 0
+            lines.append("%s %d %d %d%s" % ("H" if first else "D", rank, nt, 1 if unlim else 0,
+                                              "".join(" %d" % d for d in cd)))
+            d = {"dims": dims, "unlim": unlim, "w": BASES[base], "numrecs": 0, "written": False}
+            ds.append(d)
+            if r.random() < 0.4:
+                lines.append("V " + self.value(d["w"]))
+            return d
+
+        def full_read(k):
+            d = ds[k]
+            full = list(d["dims"])
+            if d["unlim"]:
+                full[0] = max(d["numrecs"], 1)
+            rank = len(full)
+            return ["S %d" % k, "G", self.fmt_req("R", 0, [0] * rank, [1] * rank, full)]
+
+        def read_all():
+            out = []
+            for k in range(len(ds)):
+                out += full_read(k)
+            return out
+
+        n0 = r.randrange(2, 5)
+        for i in range(n0):
+            create(i == 0)
+        # datasets that stay unwritten for the whole history (at least one, not the last created by preference)
+        never = set(r.sample(range(len(ds)), r.randrange(1, max(2, len(ds) // 2 + 1))))
+        cur = len(ds) - 1
+        for _ in range(r.randrange(6, 16)):
+            p = r.random()
+            if p < 0.07 and len(ds) < 5:
+                create(False)
+                cur = len(ds) - 1
+                if r.random() < 0.5:
+                    never.add(cur)
+                continue
+            if p < 0.20:
+                lines.append("C")
+                lines += read_all()
+                cur = len(ds) - 1
+                continue
+            k = r.randrange(len(ds))
+            if k != cur:
+                lines.append("S %d" % k)
+                cur = k
+            d = ds[k]
+            if p < 0.62 and k not in never:
+                kk = r.random()
+                kind = "valid" if kk < 0.85 else "oob"
+                us, st, sd, ct = self.request(d["dims"], d["unlim"], d["numrecs"], True, kind)
+                n = 1
+                for c in ct:
+                    n *= max(c, 0)
+                vals = [self.value(d["w"]) for _ in range(n)]
+                lines.append(self.fmt_req("W", us, st, sd, ct) + " %d%s" % (n, "".join(" " + v for v in vals)))
+                d["written"] = True
+                if kind == "valid" and d["unlim"]:
+                    d["numrecs"] = max(d["numrecs"], st[0] + (ct[0] - 1) * sd[0] + 1)
+            elif p < 0.92:
+                us, st, sd, ct = self.request(d["dims"], d["unlim"], d["numrecs"], False,
+                                              "valid" if r.random() < 0.9 else "oob")
+                lines.append(self.fmt_req("R", us, st, sd, ct))
+            else:
+                lines.append("G")
+        lines += read_all() + ["C"] + read_all()
+        # after the reopen: write into a so far unwritten dataset, then every other dataset must be unchanged
+        k = r.choice(sorted(never))
+        d = ds[k]
+        us, st, sd, ct = self.request(d["dims"], d["unlim"], d["numrecs"], True, "valid")
+        n = 1
+        for c in ct:
+            n *= max(c, 0)
+        lines += ["S %d" % k, self.fmt_req("W", us, st, sd, ct) + " %d%s" % (n, "".join(" " + self.value(d["w"]) for _ in range(n)))]
+        if d["unlim"]:
+            d["numrecs"] = max(d["numrecs"], st[0] + (ct[0] - 1) * sd[0] + 1)
+        lines += read_all() + ["C"] + read_all() + ["E"]
+        return lines
+
     @staticmethod
     def fmt_req(op, us, st, sd, ct):
         return "%s %d%s%s%s" % (op, us, "".join(" %d" % x for x in st), "".join(" %d" % x for x in sd),
@@ -248,7 +349,7 @@ def split_hist(lines, hists):
     return out
 
 
-RLINE = re.compile(r"^(H (ok|fail)$|[MVB] -?\d+$|W -?\d+ \||R -?\d+ g[01] \d+|G -?\d+ |[CE] (ok|fail)$)")
+RLINE = re.compile(r"^(H (ok|fail)$|D (ok|fail)$|S ok$|[MVB] -?\d+$|W -?\d+ \||R -?\d+ g[01] \d+|G -?\d+ |[CE] (ok|fail)$)")
 
 
 def split_r(lines, hists):
@@ -283,6 +384,10 @@ def cmp_spec(hl, r, s, meta):
         return None if r == "H ok" else "SDcreate failed: " + r
     if op == "E":
         return None if r == "E ok" else "SDendaccess/SDend failed: " + r
+    if op == "D":
+        return None if r == "D ok" else "SDcreate of a further dataset failed: " + r
+    if op == "S":
+        return None
     if op in "MVB":
         return None if not r.endswith(" -1") else "%s returned FAIL: %s" % (hl.split()[0], r)
     if op == "C":
@@ -348,7 +453,7 @@ def cmp_spec(hl, r, s, meta):
 def cmp_model(hl, r, m):
     """Library vs implementation model: return codes, transfer sequence, read values, extents -- exact."""
     op = hl[0]
-    if op in "HEMVBC" or m == "-":
+    if op in "HEMVBCDS" or m == "-":
         return None
     if op == "W":
         head, _, tr = r.partition("|")
@@ -386,8 +491,13 @@ def cmp_model(hl, r, m):
 def signature(h, idx):
     """Call-pattern tag of a failing history (for known findings): the failing operation's shape."""
     hl = h[idx].split()
-    hd = h[0].split()
-    rank = int(hd[1])
+    rank, ranks = 0, []
+    for l in h[:idx + 1]:
+        if l[0] in "HD":
+            ranks.append(int(l.split()[1]))
+            rank = ranks[-1]
+        elif l[0] == "S":
+            rank = ranks[int(l.split()[1])]
     if hl[0] in "WR" and rank > 0:
         us = int(hl[1])
         ct = [int(x) for x in hl[2 + 2 * rank:2 + 3 * rank]]
@@ -405,7 +515,14 @@ def check_history(h, R, S, M, meta):
     sp = mp = None
     if any(l.startswith("M 256") for l in h):
         M = []      # the model's domain is fill mode (no-fill storage states are not modelled): R ~ S only
+    ranks, cur = [], 0
     for i, hl in enumerate(h):
+        if hl[0] in "HD":
+            ranks.append(int(hl.split()[1]))
+            cur = len(ranks) - 1
+        elif hl[0] == "S":
+            cur = int(hl.split()[1])
+        meta["rank"] = ranks[cur]
         if i >= len(R):
             sp = sp or (i, "harness died during: " + hl[:120])
             break
@@ -594,11 +711,14 @@ def run(ctx):
     hists += [g.history() for _ in range(n)]
     hists += [g.history(spot=8) for _ in range(6 if ctx.tier == "quick" else 60)]
     hists += [g.history(spot=32) for _ in range(4 if ctx.tier == "quick" else 40)]
+    nmulti = 250 if ctx.tier == "quick" else 4000
+    multi = [g.multi_history() for _ in range(nmulti)]
+    hists += multi
     big = big_histories(ctx.rng, ctx.tier == "thorough")
     hists += big
     if ctx.tier == "thorough":
         hists += exhaustive_small(ctx.rng)
-    stats = {"histories": len(hists), "corpus": ncorpus, "large_offset_histories": len(big), "ops": {}, "write_ok": 0, "write_fail": 0, "write_any": 0,
+    stats = {"histories": len(hists), "corpus": ncorpus, "large_offset_histories": len(big), "multi_dataset_histories": len(multi), "ops": {}, "write_ok": 0, "write_fail": 0, "write_any": 0,
              "read_ok": 0, "read_fail": 0, "read_any": 0, "cells_compared": 0, "unlimited": 0, "strided_ops": 0,
              "reopen": 0, "nofill_histories": 0, "rank_hist": {}, "type_hist": {}, "harness_deaths": 0,
              "model_compared_ops": 0}
@@ -622,6 +742,7 @@ def run(ctx):
             stats["rank_hist"][hd[1]] = stats["rank_hist"].get(hd[1], 0) + 1
             stats["type_hist"][hd[2]] = stats["type_hist"].get(hd[2], 0) + 1
             stats["unlimited"] += hd[3] == "1"
+            stats["datasets"] = stats.get("datasets", 0) + sum(1 for l in h if l[0] in "HD")
             stats["nofill_histories"] += any(l == "M 256" for l in h)
             for i, hl in enumerate(h):
                 stats["ops"][hl[0]] = stats["ops"].get(hl[0], 0) + 1
